@@ -30,6 +30,9 @@ package mathx
 
 // C06 expiry jitter: AroundDuration(base) lies within (1-deviation, 1+deviation] of base (minus the truncation to whole nanoseconds).
 //@ spec devOf(u Unstable) float64 = u.deviation
+// what clients may say about an Unstable they hold
+//@ spec UnstableOK(u Unstable) bool = 0.0 <= u.deviation && u.deviation <= 1.0
+
 //@ func (u Unstable) AroundDuration
 //@   property C06
 //@   float real
